@@ -3,9 +3,11 @@ package main
 import (
 	"encoding/json"
 	"fmt"
+	"io"
 	"math/rand"
 	"os"
 	"os/exec"
+	"runtime"
 	"strconv"
 	"strings"
 	"sync"
@@ -29,10 +31,11 @@ import (
 // error that no recover() sees.
 
 type c04concResult struct {
-	Writes     int            `json:"writes"`
-	Bad        string         `json:"bad,omitempty"`
-	BadHex     string         `json:"bad_hex,omitempty"`
-	SeenValues map[string]int `json:"seen_value_lengths"`
+	Writes      int            `json:"writes"`
+	StreamReads int            `json:"concurrent_stream_reads"`
+	Bad         string         `json:"bad,omitempty"`
+	BadHex      string         `json:"bad_hex,omitempty"`
+	SeenValues  map[string]int `json:"seen_value_lengths"`
 }
 
 func c04value(n int) string {
@@ -116,8 +119,83 @@ func c04concurrentChild(seed int64, writes int) int {
 		atomic.StoreInt32(&stop, 1)
 		wg.Wait()
 	}
+	// Independent streams read at the same time: every reader owns its bytes,
+	// so what one reader decodes cannot depend on what another one is reading.
+	// The streams hand their bytes over a few at a time (a socket does) and the
+	// blocks have different totals.
+	if res.Bad == "" {
+		readers := 8
+		per := writes / 8
+		var rwg sync.WaitGroup
+		var mu sync.Mutex
+		for g := 0; g < readers; g++ {
+			rwg.Add(1)
+			grng := rand.New(rand.NewSource(rng.Int63()))
+			go func(g int, grng *rand.Rand) {
+				defer rwg.Done()
+				for i := 0; i < per; i++ {
+					H := map[string]string{"_opid": strconv.Itoa(g*1000000 + i), "g": c04value(4 + grng.Intn(300))}
+					for k, n := 0, grng.Intn(4); k < n; k++ {
+						H["u"+strconv.Itoa(k)] = c04string(grng, "ascii", grng.Intn(40))
+					}
+					block := wire.EncodeHeaders(wire.MapToPairs(H))
+					payload := []byte{0, 0, 0, 1, byte(g)}
+					r := &dribble{b: append(append([]byte(nil), block...), payload...), step: 1 + grng.Intn(3)}
+					got, err := frugal.VerifReadHeader(r)
+					bad := ""
+					switch {
+					case err != nil:
+						bad = "a well-formed block read while other streams were being read was rejected: " + err.Error()
+					case !mapsEqual(got, H):
+						bad = "a block read while other streams were being read decoded to a different map"
+					case len(r.b)-r.off != len(payload):
+						bad = fmt.Sprintf("a block read while other streams were being read left %d bytes of its stream, the payload has %d", len(r.b)-r.off, len(payload))
+					}
+					mu.Lock()
+					res.StreamReads++
+					if bad != "" && res.Bad == "" {
+						res.Bad = bad
+						if len(block) > 256 {
+							block = block[:256]
+						}
+						res.BadHex = fmt.Sprintf("%x", block)
+					}
+					stop := res.Bad != ""
+					mu.Unlock()
+					if stop {
+						return
+					}
+				}
+			}(g, grng)
+		}
+		rwg.Wait()
+	}
 	json.NewEncoder(os.Stdout).Encode(res)
 	return 0
+}
+
+// dribble hands its bytes over step at a time and yields in between.
+type dribble struct {
+	b    []byte
+	off  int
+	step int
+}
+
+func (d *dribble) Read(p []byte) (int, error) {
+	if d.off >= len(d.b) {
+		return 0, io.EOF
+	}
+	n := d.step
+	if n > len(p) {
+		n = len(p)
+	}
+	if n > len(d.b)-d.off {
+		n = len(d.b) - d.off
+	}
+	copy(p, d.b[d.off:d.off+n])
+	d.off += n
+	runtime.Gosched()
+	return n, nil
 }
 
 // c04concurrent runs the child and folds its verdict into the run.
@@ -147,13 +225,19 @@ func c04concurrent(run *ev.Run) {
 		return
 	}
 	run.Eval(res.Writes)
+	run.Eval(res.StreamReads)
+	run.Set("concurrent_stream_reads_checked", res.StreamReads)
 	run.Set("concurrent_writer_blocks_checked", res.Writes)
 	run.Set("concurrent_writer_value_lengths_observed", res.SeenValues)
 	for l := range res.SeenValues {
 		run.Distinct("concurrent k-len=" + l)
 	}
 	if res.Bad != "" {
-		run.Violation("C04:concurrent-writer", res.Bad, map[string]interface{}{"seed": seed, "block_hex_prefix": res.BadHex})
+		sig := "C04:concurrent-writer"
+		if strings.Contains(res.Bad, "other streams") {
+			sig = "C04:concurrent-stream-readers"
+		}
+		run.Violation(sig, res.Bad, map[string]interface{}{"seed": seed, "block_hex_prefix": res.BadHex})
 	} else if len(res.SeenValues) < 2 {
 		run.Inconclusive("concurrent writer leg observed a single header state only")
 	}
